@@ -14,6 +14,9 @@ WIDTH = {'uint64_t': 64, 'unsigned long': 64, 'unsigned long long': 64, 'secp256
 class Unsupported(Exception): pass
 NOOP_CALLS = ('secp256k1_scalar_verify', 'secp256k1_fe_verify', 'secp256k1_fe_verify_magnitude', 'secp256k1_ge_verify', 'secp256k1_gej_verify')
 
+# whole-object copies are translated for these struct types: (member, number of elements) - the limb count follows the configuration
+STRUCT_FIELDS = {'secp256k1_fe': lambda s: [('n', 10 if s.limbs32 else 5)]}
+# constant global objects that translated functions read (value checked against the source on every run: see translate())
 def tname(t):
     t = t.replace('const ', '').replace(' const', '').replace('volatile ', '').strip()
     return t
@@ -223,7 +226,7 @@ class Fn:
         s.stmt(body)
         name, used = s.inl_ret.pop(); s.returned = saved
         return name if used else None
-    def cps_call(s, fn, args):
+    def cps_call(s, fn, args, ret_name='_'):
         """a call to a separately translated (and separately proved) function, kept as a call in continuation-passing form:
         callee_k <values it reads> (fun <values it writes> => rest)"""
         if s.style != 'bind': raise Unsupported('continuation-passing calls need the bind style')
@@ -256,7 +259,7 @@ class Fn:
         ins = [rd(*x) for x in sig_ins]
         outs = []
         for pn, kind, key in sig_outs:
-            if kind == 'ret': outs.append('_'); continue
+            if kind == 'ret': outs.append(ret_name); continue
             b = base[pn]
             if b is None: raise Unsupported('pointer argument shape in call to ' + fn)
             if kind == 'arr' and isinstance(b, tuple):
@@ -308,6 +311,24 @@ class Fn:
             if fn in getattr(s, 'cps', {}): s.cps_call(fn, args); return
             if fn in s.inlines: s.inline_call(fn, args); return
             raise Unsupported('call statement: ' + fn)
+        if k == 'BinaryOperator' and n['opcode'] == '=' and tname(n['type']['qualType']) in STRUCT_FIELDS:
+            # whole-object copy of a field element (u1 = a->x; r->x = t;): member by member
+            lhs = strip(n['inner'][0]); rhs = strip(n['inner'][1])
+            if lhs['kind'] != 'DeclRefExpr' or rhs['kind'] != 'DeclRefExpr': raise Unsupported('struct assignment shape')
+            ln = lhs['referencedDecl']['name']; rn = rhs['referencedDecl']['name']
+            for f, cnt in STRUCT_FIELDS[tname(n['type']['qualType'])](s):
+                for i in range(cnt):
+                    if (rn, f, i) not in s.written: s.mem_in.setdefault(rn, set()).add((f, i))
+                    s.mem_out.setdefault(ln, set()).add((f, i)); s.written.add((ln, f, i))
+                    s.let('%s_%s%d' % (ln, f, i), '%s_%s%d' % (rn, f, i))
+            return
+        if k == 'BinaryOperator' and n['opcode'] == '=' and strip(n['inner'][1])['kind'] == 'CallExpr' and s.callee(strip(n['inner'][1])) in getattr(s, 'cps', {}):
+            # x = f(...) for a separately translated f: the returned value is the callee's last output
+            lhs = strip(n['inner'][0]); call = strip(n['inner'][1])
+            if lhs['kind'] == 'DeclRefExpr': nm = lhs['referencedDecl']['name']
+            elif lhs['kind'] == 'MemberExpr': nm = s.member(lhs, write=True)
+            else: raise Unsupported('assignment target')
+            s.cps_call(s.callee(call), call['inner'][1:], ret_name=nm); return
         if k == 'BinaryOperator' and n['opcode'] == '=':
             lhs = strip(n['inner'][0]); e = s.ex(n['inner'][1])
             if lhs['kind'] == 'DeclRefExpr': s.let(lhs['referencedDecl']['name'], e)
@@ -383,6 +404,12 @@ class Fn:
             if a in pnames: outs += [mname(a, f, i) for (f, i) in sorted(s.mem_out[a])]; s.sig_outs += [(a, 'mem', fi) for fi in sorted(s.mem_out[a])]
         for a in sorted(s.ptr_out):
             if a in pnames: outs.append(a + '_v'); s.sig_outs.append((a, 'ptr', None))
+        for a in list(s.mem_in):
+            if a not in pnames and a.startswith('secp256k1_') and all(f == 'n' for f, i in s.mem_in[a]):
+                # a constant global field element: its limbs, read from the initializer in the working tree, are bound in front of the body
+                vals = global_const(s.repo, a, s.defines)
+                s.lines[0:0] = [('  bind %d (fun %s_n%d =>' if s.style == 'bind' else '  let %s_n%d := %d in').replace('%d (fun %s_n%d', '{v} (fun {a}_n{i}').format(v=vals[i], a=a, i=i) if s.style == 'bind' else '  let %s_n%d := %d in' % (a, i, vals[i]) for (f, i) in sorted(s.mem_in[a])]
+                del s.mem_in[a]
         for a in list(s.arr_in) + list(s.mem_in):
             if a not in pnames: raise Unsupported('local object %s read before it is written' % a)
         if s.has_ret: outs.append('ret'); s.sig_outs.append((None, 'ret', None))
@@ -407,6 +434,45 @@ class Fn:
         o.append('Definition %s_inputs : nat := %d.' % (s.short, len(ins)))
         return '\n'.join(o).replace('(fun', '(fun').replace('=> [', '=> (cons_list [').replace(']).', ']))).') if False else '\n'.join(o), ins, outs
 
+def const_eval(n):
+    """value of a constant integer expression (the initializers of constant global objects such as secp256k1_fe_one)"""
+    k = n['kind']
+    if k in ('ParenExpr', 'ConstantExpr'): return const_eval(n['inner'][0])
+    if k == 'IntegerLiteral': return int(n['value'])
+    if k in ('ImplicitCastExpr', 'CStyleCastExpr'):
+        v = const_eval(n['inner'][0]); w = width(n['type']['qualType'])
+        return v % (1 << w) if w > 0 else v
+    if k == 'BinaryOperator':
+        a = const_eval(n['inner'][0]); b = const_eval(n['inner'][1]); op = n['opcode']; w = width(n['type']['qualType'])
+        v = {'|': lambda: a | b, '&': lambda: a & b, '^': lambda: a ^ b, '<<': lambda: a << b, '>>': lambda: a >> b, '+': lambda: a + b, '-': lambda: a - b, '*': lambda: a * b}.get(op)
+        if v is None: raise Unsupported('constant operator ' + op)
+        v = v()
+        if w > 0: return v % (1 << w)
+        if not -(1 << (-w - 1)) <= v < (1 << (-w - 1)): raise Unsupported('signed overflow in a constant')
+        return v
+    raise Unsupported('constant expression ' + k)
+
+def global_const(repo, name, defines=()):
+    """limbs of a constant global field element, read from its initializer in the working tree"""
+    tu = tempfile.NamedTemporaryFile('w', suffix='.c', delete=False)
+    tu.write('#define ENABLE_MODULE_RECOVERY 1\n#define ENABLE_MODULE_EXTRAKEYS 1\n#define ENABLE_MODULE_SCHNORRSIG 1\n#define ECMULT_WINDOW_SIZE 15\n#define COMB_BLOCKS 43\n#define COMB_TEETH 6\n#include "src/secp256k1.c"\n')
+    tu.close()
+    try:
+        cmd = ['clang', '-fsyntax-only', '-w', '-I' + repo, '-I' + repo + '/src'] + list(defines) + ['-Xclang', '-ast-dump=json', '-Xclang', '-ast-dump-filter=' + name, tu.name]
+        p = subprocess.run(cmd, stdout=subprocess.PIPE, stderr=subprocess.PIPE, timeout=300)
+        txt = p.stdout.decode(); dec = json.JSONDecoder(); pos = 0
+        while pos < len(txt):
+            while pos < len(txt) and txt[pos] not in '{[': pos += 1
+            if pos >= len(txt): break
+            obj, end = dec.raw_decode(txt, pos); pos = end
+            if obj.get('kind') == 'VarDecl' and obj.get('name') == name and 'const' in obj['type']['qualType']:
+                init = [c for c in obj.get('inner', []) if c['kind'] == 'InitListExpr']
+                if init and init[0]['inner'] and init[0]['inner'][0]['kind'] == 'InitListExpr':
+                    return [const_eval(e) for e in init[0]['inner'][0]['inner']]
+        raise Unsupported('constant global %s not found' % name)
+    finally:
+        os.unlink(tu.name)
+
 def flatten_nested(d):
     """members of struct type reached through a pointer parameter (r->z of a secp256k1_gej *r) become pseudo pointer parameters
     (r_z of type secp256k1_fe *), so that the body only mentions one level of member access: &r->z ~> r_z, r->z.n[i] ~> r_z->n[i].
@@ -430,6 +496,9 @@ def flatten_nested(d):
         if n.get('kind') == 'MemberExpr' and not n.get('isArrow'):
             r = smember(n['inner'][0])
             if r: n = dict(n); n['isArrow'] = True; n['inner'] = [r]; return n
+        if n.get('kind') == 'MemberExpr' and n.get('isArrow'):
+            r = smember(n)
+            if r: r = dict(r); r['structObject'] = True; r['type'] = {'qualType': tname(n['type']['qualType'])}; return r      # r->x as a whole object
         return {k: (walk(v) if k == 'inner' else v) for k, v in n.items()}
     d['inner'] = walk(d['inner'])
     idx = max(i for i, c in enumerate(d['inner']) if c['kind'] == 'ParmVarDecl') + 1
@@ -470,6 +539,7 @@ def translate(repo, fn, defines=(), callees=None, requires=(), inlines=(), style
     if flatten: d = flatten_nested(d)
     short = short or fn.replace('secp256k1_', '')
     f = Fn(d, short, callees, {g: ast_of(repo, g, defines) for g in inlines}, style); f.callee_names = callee_names or {}; f.cps = cps or {}
+    f.limbs32 = any('WIDEMUL_INT64' in x for x in defines); f.repo = repo; f.defines = defines
     text, ins, outs = f.run()
     if requires:
         text = text.replace('Require Import Kernel.CSem', 'Require Import %s Kernel.CSem' % ' '.join('Gen.' + r for r in requires), 1)
